@@ -10,6 +10,7 @@ mod cmd_record;
 mod cmd_compare;
 mod cmd_linkage;
 mod cmd_setmeta;
+mod cmd_setmachine;
 mod cmd_group;
 mod cmd_termid;
 mod cmd_cats;
@@ -45,6 +46,7 @@ fn main() {
         "replay-compare" => cmd_compare::run(&args),
         "replay-linkage" => cmd_linkage::run(&args),
         "replay-setmeta" => cmd_setmeta::run(&args),
+        "replay-setmachine" => cmd_setmachine::run(&args),
         "replay-group" => cmd_group::run(&args),
         "replay-termid" => cmd_termid::run(&args),
         "replay-cats" => cmd_cats::run(&args),
@@ -77,6 +79,7 @@ fn main() {
                 "replay-reject" => cmd_reject::replay_one(&v),
                 "replay-order" => cmd_order::replay_one(&v),
                 "replay-sub" => cmd_sub::replay_one(&v),
+                "replay-setmachine" => cmd_setmachine::replay_one(&v),
                 other => {
                     eprintln!("unknown replay cmd {other}");
                     std::process::exit(2)
